@@ -1,5 +1,92 @@
-import Tpp.Model.Terminal
-import Tpp.Ref.Render
+import Tpp.Lemmas.Step
+/-!
+C01 – attributed text is rendered with exactly the requested attributes and charset.
+
+`Sys.run` runs the library model and the reference terminal together (every byte the model emits is fed
+to `Ref.VT`; a resize event changes both).  `cellOf e` is the *specification* of what a terminal should
+show for `e` (text, character set, and the rendition `rendOf e.attr`: bold/faint, underline, blink,
+inverse, foreground, background) – written without reference to the encoder.
+-/
 namespace Tpp.Props.C01
--- theorems follow (under construction)
+open Tpp
+
+/-- For every in-domain history (element/string writes interleaved with erases, cursor moves,
+    save/restore, modes, titles, resizes), from any state in which belief and terminal agree:
+    the terminal's print log grows by exactly the requested elements' cells, in order; the reference
+    parser never meets a byte it cannot place; and it ends between control functions. -/
+theorem C01_rendering (beh : Behaviour) (st : TermState × VT) (hA : Agree st.1 st.2) (evs : List Ev)
+    (hwf : RunWF beh st evs) :
+    (∃ entries, (Sys.run beh st evs).2.log = st.2.log ++ entries ∧
+        entries.map (·.2.2) = (evs.flatMap Ev.elements).map cellOf) ∧
+    (Sys.run beh st evs).2.malformed = false ∧ (Sys.run beh st evs).2.ps = .ground := by
+  have h := agree_run beh evs st hA hwf
+  exact ⟨run_log beh evs st hA hwf, h.1.ok, h.1.ground⟩
+
+/-- … in particular for a fresh `terminal` object talking to a terminal in an unknown state – ANY initial
+    rendition, cursor, contents, modes – once the size has been declared; for both values of
+    `unicode_in_all_charsets` (`beh` is arbitrary). -/
+theorem C01_rendering_fresh (beh : Behaviour) (vt0 : VT) (hu : vt0.Unknown)
+    (w h : Nat) (cells : Bool → Grid) (cx cy : Nat) (saved : Option (Nat × Nat)) (pending : Bool)
+    (evs : List Ev) (hwf : RunWF beh (Sys.step beh ({}, vt0) (.resize w h cells cx cy saved pending)) evs) :
+    let vt := (Sys.run beh ({}, vt0) (.resize w h cells cx cy saved pending :: evs)).2
+    (∃ entries, vt.log = vt0.log ++ entries ∧ entries.map (·.2.2) = (evs.flatMap Ev.elements).map cellOf) ∧
+    vt.malformed = false ∧ vt.ps = .ground := by
+  have hA := agree_resize_fresh beh {} vt0 (agreeRend_init vt0 hu) w h cells cx cy saved pending
+  obtain ⟨⟨entries, h1, h2⟩, h3, h4⟩ := C01_rendering beh _ hA evs hwf
+  intro vt
+  have hvt : vt = (Sys.run beh (Sys.step beh ({}, vt0) (.resize w h cells cx cy saved pending)) evs).2 := by
+    show (Sys.run beh ({}, vt0) (.resize w h cells cx cy saved pending :: evs)).2 = _
+    rw [Sys.run_cons]
+  rw [hvt]
+  have hlog : (Sys.step beh ({}, vt0) (.resize w h cells cx cy saved pending)).2.log = vt0.log := rfl
+  exact ⟨⟨entries, h1.trans (congrArg (· ++ entries) hlog), h2⟩, h3, h4⟩
+
+/-- one `terminal << element`: exactly one glyph, shown as `cellOf e`, whatever was written before -/
+theorem C01_step_write (beh : Behaviour) (s : TermState) (vt : VT) (hA : Agree s vt) (e : Element) (hw : e.wf = true) :
+    ∃ x y, (vt.feedAll (step beh s (.writeElement e)).2).log = vt.log ++ [(x, y, cellOf e)] := by
+  obtain ⟨entries, h1, h2⟩ := step_log beh s vt hA (.op (.writeElement e)) hw
+  simp only [Ev.elements, Op.elements, List.map_cons, List.map_nil] at h2
+  cases entries with
+  | nil => simp at h2
+  | cons t ts =>
+    cases ts with
+    | nil =>
+      obtain ⟨x, y, c⟩ := t
+      simp at h2; subst h2
+      exact ⟨x, y, h1⟩
+    | cons _ _ => simp at h2
+
+/-- the rendition-only half needs no size at all: writes from an unknown rendition -/
+theorem C01_wellformed (beh : Behaviour) (st : TermState × VT) (hA : Agree st.1 st.2) (evs : List Ev)
+    (hwf : RunWF beh st evs) (k : Nat) :
+    (Sys.run beh st (evs.take k)).2.malformed = false ∧ (Sys.run beh st (evs.take k)).2.ps = .ground := by
+  have hwf' : ∀ (evs : List Ev) (st : TermState × VT) (k : Nat), RunWF beh st evs → RunWF beh st (evs.take k) := by
+    intro evs
+    induction evs with
+    | nil => intro st k h; simpa using h
+    | cons ev evs ih =>
+      intro st k h
+      cases k with
+      | zero => simp [RunWF]
+      | succ k => exact ⟨h.1, ih _ k h.2⟩
+  have h := agree_run beh (evs.take k) st hA (hwf' evs st k hwf)
+  exact ⟨h.1.ok, h.1.ground⟩
+
+-- non-vacuity: a concrete unknown terminal (bold red-on-blue, cursor parked somewhere) and a concrete history
+def demoVT : VT :=
+  { w := 3, h := 2, wrap := .deferred, eraseMode := .bce, cx := 2, cy := 1, pending := true,
+    rend := { bold := true, fg := .idx 1, bg := .idx 4 }, g0 := .usAscii, utf8 := false, cursorVisible := true,
+    mouse1000 := false, mouse1003 := false, alt := false, title := [], saved := none, ps := .ground,
+    malformed := false, log := [], cells := fun _ _ _ => Cell.blank }
+def demoEl : Element := { glyph := { b0 := 0xC3, b1 := 0xA9, b2 := 0, cs := .utf8 }, attr := { blinking := .blink, fg := .high 196 } }
+example : demoVT.Unknown := ⟨rfl, rfl, rfl, rfl⟩
+example : demoEl.wf = true := by decide
+example : RunWF {} (Sys.step {} ({}, demoVT) (.resize 3 2 demoVT.cells 0 0 none false))
+    [.op (.writeElement demoEl), .op (.moveCursor ⟨2, 1⟩), .op (.erase .lineLeft), .op (.writeString [demoEl, {}])] := by
+  refine ⟨?_, ?_, trivial, ?_, trivial⟩
+  · show demoEl.wf = true; decide
+  · show (0:Int) ≤ 2 ∧ (2:Int) < _ ∧ (0:Int) ≤ 1 ∧ (1:Int) < _
+    decide
+  · intro e he; simp at he; rcases he with rfl | rfl <;> decide
+
 end Tpp.Props.C01
